@@ -107,6 +107,26 @@ T = {
              "negative value of a signed number whose innermost rep is a class type (wide_integer<N>, N > 127): 0 used digits, leading_bits = full width", ["C18", "C06"]),
  "M-C19-3": ("C19", "sqrt(elastic_integer) result digits = width / 2 instead of (Digits + 1) / 2 (elastic_integer/sqrt.h)",
              "unsigned Narrowest with an odd digit count: the root needs one more digit than the result type declares", ["C19", "C05"]),
+ "M-C04-3": ("C04", "cross-radix integer->integer conversion: the four ordered scalings collapsed into destination-first, source-second (scaled/convert_operator.h)",
+             "source and destination of different radix, both exponents positive, source rep not a multiple of DestRadix^DestExponent (the division now precedes the multiplication)", ["C04"]),
+ "M-C01-4": ("C01", "power_value_fn integer odd-exponent step gains a trailing return type S: Radix^E wraps in narrow reps (power_value.h)",
+             "radix other than 2, rep narrower than int, exponent gap d with Radix^d not representable in the rep (d >= 3 for 8-bit, >= 5 for 16-bit reps, radix 10)", ["C01", "C04"]),
+ "M-C04-4": ("C04", "the same collapse of the cross-radix conversion as M-C04-3, found independently (scaled/convert_operator.h)",
+             "as M-C04-3", ["C04"]),
+ "M-C05-4": ("C05", "elastic binary operator: operand_rep widened for the divisor only (elastic_tag/custom_operator.h)",
+             "% with a dividend of more digits than the divisor and than the result's storage type, dividend value using its high bits", ["C05", "C02"]),
+ "M-C06-4": ("C06", "measure_polarity de-templated to take std::intmax_t (polarity.h)",
+             "g++ only; checked * with a uint64_t operand >= 2^63 (or a 128-bit operand outside the int64 range) and an overflowing product: saturates to 0 / reports negative overflow / 'CNL internal error'", ["C06", "C07", "C12"]),
+ "M-C07-4": ("C07", "is_overflow<shift_left_op, positive> judges static_cast<int>(rhs) (overflow/is_overflow.h)",
+             "positive left operand and a shift count whose type holds a value not representable in int (unsigned >= 2^31, 64-bit >= 2^32): the native out-of-range shift is executed", ["C07", "C06"]),
+ "M-C09-4": ("C09", "nearest scaled->coarser conversion: half() = unit / Radix instead of unit / 2 (scaled_integer/convert_operator.h)",
+             "radix other than 2 (10, 3, 4), discarded part at least half a destination unit", ["C09"]),
+ "M-C11-4": ("C11", "numeric_limits<wide_integer>::max()/lowest(): shift count taken modulo the narrowest type's width (wide_integer/numeric_limits.h)",
+             "single-word wide/static integers whose narrowest type is int8/int16 and whose digits leave a whole narrowest-width of the rep unused (e.g. static_integer<20, ..., int8_t>): limits too wide, out-of-range values pass the overflow checks", ["C11", "C10", "C05"]),
+ "M-C12-4": ("C12", "assign_modulo_op::binary = divide_op (custom_operator/op.h)",
+             "a %= b on any CNL wrapper", ["C12"]),
+ "M-C13-4": ("C13", "fill(scientific) writes an explicit exponent sign, also '+', which solve_scientific never counted (scaled_integer/to_chars.h)",
+             "scientific layout with a non-negative decimal exponent in a buffer short enough that the significand is truncated, release build: one byte written at *last, ptr == last + 1", ["C13", "C14"]),
 }
 
 
@@ -138,6 +158,12 @@ HIST = {
  "M-C03-3": "missed at first: the single-word wide_integer comparison kernels had no (unsigned, wider signed) pair; seven mixed pairs added",
  "M-C12-3": "missed at first by C12 (reported by C03): comparisons with a built-in operand of a wider type than the wrapper's rep added to C12",
  "M-C18-3": "missed at first: signedness-dispatch rule added (used_digits / leading_bits of a signed number must enter the signed algorithm, also for class-type reps)",
+ "M-C04-3": "missed at first: conversions between different radices were not in the matrix; 129 cross-radix kernels added (reference: every multiplication before any division), which needed six new division/extension rewrites in the normaliser",
+ "M-C04-4": "as M-C04-3",
+ "M-C07-4": "missed at first: every shift line used an int count; counts of unsigned / 64-bit types added",
+ "M-C09-4": "missed at first: radix != 2 was declared undecided; radix 10 and 3 nearest conversions added",
+ "M-C11-4": "missed at first: numeric_limits VALUES of single-word wide/static integers with narrow narrowest types added to the type facts",
+ "M-C13-4": "missed at first: fill's consumption was taken from its assertions; the whole to_chars_positive with the real fill inlined is now decided per buffer size (significand characters pinned to a literal so that fill's character-driven loop folds), and the failing assertion / the extra character is reported",
 }
 
 
